@@ -26,6 +26,21 @@ def hasher_updates(t):
             h = h[2][0]
         elif h[0] == "call" and h[1] in ("std::default::Default::default", "sha2::Digest::new") and not h[2]:
             break
+        elif h[0] == "call" and h[1] == "sha2::Digest::new_with_prefix" and len(h[2]) == 1:
+            ups.append(h[2][0])  # Sha256::new_with_prefix(x) is new() + update(x)
+            break
+        elif h[0] == "call" and h[1].endswith("Iterator::fold") and len(h[2]) == 3 and h[2][2][0] == "closure":
+            # chunks.into_iter().fold(hasher, |h, chunk| h.chain_update(chunk)) over a literal list of chunks
+            src = h[2][0]
+            while src[0] == "call" and src[1].split("::")[-1] in ("into_iter", "iter") and src[2]:
+                src = src[2][0]
+            import engine.mir as _m
+            res = closure_result(_m.CURRENT, h[2][2], params={2: ("acc",), 3: ("chunk",)}) if _m.CURRENT is not None else None
+            step_ok = res is not None and ((res[0] == "call" and res[1] == "sha2::Digest::chain_update" and res[2][0] == ("acc",) and norm(res[2][1]) == ("chunk",)) or (res[0] == "mut" and res[2] == "sha2::Digest::update" and res[1] == ("acc",) and norm(res[3][0]) == ("chunk",)))
+            if src[0] != "array" or not step_ok:
+                return None
+            ups.extend(reversed(list(src[1])))
+            h = h[2][1]
         else:
             return None
     return list(reversed(ups)), meta_of(t)
@@ -78,6 +93,9 @@ def run(R, env):
         if h2 is None:
             continue
         ups, _ = h2
+        if len(ups) == 4 and ups[1] == ("chan",) and const_str(ups[2]) == "/" and ups[3] == ("sender",):
+            # the key streamed in three chunks: hashing is over the concatenation, the same bytes as "{channel}/{sender}"
+            ups = [ups[0], ("call", "core::slice::concat", (("array", tuple(ups[1:])),))]
         R.ob("C09.R1", "outer-hash-two-updates", len(ups) == 2, "outer hasher is updated with %d operands: %s" % (len(ups), [fmt(u)[:80] for u in ups]), fn=dk)
         if len(ups) != 2:
             continue
